@@ -18,6 +18,10 @@ def check(run, model, tier):
                        'and start(). The verdict is about the add method each thread uses, so it covers every mix of pending events.')
     run.rule('ENDS.fabric-kind', 'lifo thread adds at the consumer end (front), fifo thread at the opposite end (back)')
     w = fabric.wiring(model)
+    if not w.consistent:
+        run.inst('KIND.wiring', w.subscribe, 'each kind is registered in the registry its own delivery thread reads', False,
+                 'subscribe(queue_type=k) writes %s but the threads read %s' % (w.registry, sorted(w.threads)), obligation=True)
+        return
     E = queues.consumer_end(model)
     run.note('consumer end (front) = %s' % E)
     n = 0
@@ -43,4 +47,9 @@ def check(run, model, tier):
                                                 'because the consumer (next_rtc) removes from the %s end' % (kind, c.func.attr, got, kind, want, E)),
                                  node=c, obligation=True)
     run.floor('delivery add sites', n, 2)
+    from props.c06 import kind_independence
+    run.rule('KIND.wiring', 'a subscription of kind k is registered in k\'s registry whatever the other kind\'s registry holds')
+    kind_independence(run, model, w)
+    for kind, reg in sorted(w.registry.items()):
+        run.inst('KIND.wiring', w.subscribe, 'kind %s -> registry %s -> thread %s' % (kind, reg, w.threads[reg]['runner'].name), True, obligation=True)
     run.assume('subscriber queues are deques or LockingDeques consumed from the left by next_rtc (C14)')
